@@ -393,9 +393,12 @@ func specC15(c *Case, ps []*Probe) []string {
 		if e != nil && e.Op != expr.Operator(arg) && strings.HasPrefix(r, "ok:") {
 			out = append(out, "an operator without a registered function did not make Render fail (single-entry map)")
 		}
-	case "override":
+	case "override", "override-inplace":
 		if !has && len(ps) >= 3 && r != ps[2].Impl["R"] {
 			out = append(out, "overriding the function of an operator that does not occur changed the output")
+		}
+		if parts[0] == "override-inplace" && len(ps) >= 4 && (r != ps[3].Impl["R"] || rp != ps[3].Impl["RP"]) {
+			out = append(out, "overriding one operator's function in the driver's own table renders differently from the same override in a copy of the table (the change is not local to that operator's nodes)")
 		}
 	case "pg":
 		if oracle.HasOp(e, expr.Fuzzy) || oracle.HasOp(e, expr.Boost) {
@@ -427,7 +430,7 @@ func genRenderCases(rng *gen.Rng, count int, emit func(Case)) {
 		case 4:
 			desc = "fail:" + strconv.Itoa(op)
 		case 5:
-			desc = "override:" + strconv.Itoa(op)
+			desc = gen.Pick(rng, []string{"override:", "override-inplace:"}) + strconv.Itoa(op)
 		case 6:
 			desc = "pg"
 		default:
@@ -631,6 +634,9 @@ func specFromProbes(prefix string) func(c *Case, ps []*Probe) []string {
 
 // specC03: ToPostgres must succeed on the filterable fragment, and the SQL must mean what the query means.
 func specC03(c *Case, ps []*Probe) []string {
+	if c.Kind == "isolation" && len(ps) > 0 && ps[0].Lex != nil {
+		return ps[0].Lex.Fails // customising one driver instance must not change what ToPostgres renders
+	}
 	if c.Kind != "sem" {
 		return nil
 	}
@@ -772,6 +778,11 @@ func genQuoted(rng *gen.Rng, count int, emit func(Case)) {
 			}
 			continue
 		}
+		if rng.Chance(1, 6) {
+			// the quoted text, scoped by the default field, as an OPERAND (not the whole query)
+			emit(Case{Gen: "G4-quoted-operand", Kind: "quoted", S: gen.Pick(rng, []string{`"` + w + `" AND c:d`, `c:d AND "` + w + `"`, `c:d "` + w + `"`, `"` + w + `" OR c:d`}), DF: f, Aux: f, Want: w, Rel: "operand", Idx: i})
+			continue
+		}
 		switch rng.Intn(4) {
 		case 0, 1:
 			emit(Case{Gen: "G4-quoted-field", Kind: "quoted", S: f + `:"` + w + `"`, Aux: f, Want: w, Idx: i})
@@ -799,6 +810,23 @@ func specC08(c *Case, ps []*Probe) []string {
 	if c.Rel == "range" || c.Rel == "list" || c.Rel == "cmp" {
 		return specC08Positions(c, ps)
 	}
+	if c.Rel == "operand" {
+		// somewhere in the tree: Equals(Column f, Literal w) — a plain string leaf, never a pattern
+		t := ParseCanon(q.Impl["P"])
+		found := t.any(func(n *CNode) bool {
+			return n.Kind == "expr" && n.Op == 3 && n.L != nil && n.L.Kind == "expr" && n.L.leafPrim() == "c:"+hexEncode(f) &&
+				n.R != nil && n.R.Kind == "expr" && n.R.Op == 11 && n.R.leafPrim() == "s:"+hexEncode(w)
+		})
+		if !found {
+			return []string{"the value does not arrive in the tree as one plain string equal to the text (operand scoped by the default field)"}
+		}
+		if utf8.ValidString(w) && !strings.ContainsRune(w, 0) && strings.HasPrefix(q.Impl["PP"], "ok:") {
+			if _, params := splitPP(q.Impl["PP"]); !strings.Contains(","+params+",", ",s:"+impl.Hex(w)+",") {
+				return []string{"the value does not travel verbatim as a string parameter (operand scoped by the default field)"}
+			}
+		}
+		return nil
+	}
 	wantTree := fmt.Sprintf("ok:(E 3 (E 11 c:%s nil f:3ff0000000000000 i:1) (E 11 s:%s nil f:3ff0000000000000 i:1) f:3ff0000000000000 i:1)", impl.Hex(f), impl.Hex(w))
 	var out []string
 	if q.Impl["P"] != wantTree {
@@ -822,6 +850,11 @@ func specC08(c *Case, ps []*Probe) []string {
 	if q.Impl["PP"] != wantPP {
 		out = append(out, "the value does not travel verbatim as the one string parameter")
 	}
+	for _, p := range ps {
+		if p.Op == "render" && p.Impl["R"] != q.Impl["PG"] {
+			out = append(out, "a driver built from driver.Shared (the documented way to make a custom driver) renders the constant differently from ToPostgres: "+p.Impl["R"])
+		}
+	}
 	return out
 }
 
@@ -833,7 +866,9 @@ func specC08Positions(c *Case, ps []*Probe) []string {
 	isStr := func(n *CNode, want string) bool {
 		return n != nil && n.Kind == "expr" && n.Op == 11 && n.leafPrim() == "s:"+hexEncode(want) && n.R != nil && n.R.Kind == "nil"
 	}
-	isCol := func(n *CNode) bool { return n != nil && n.Kind == "expr" && n.Op == 11 && n.leafPrim() == "c:"+hexEncode(f) }
+	isCol := func(n *CNode) bool {
+		return n != nil && n.Kind == "expr" && n.Op == 11 && n.leafPrim() == "c:"+hexEncode(f)
+	}
 	treeOK := false
 	var wantSQL, wantPP string
 	if t != nil && t.Kind == "expr" && isCol(t.L) {
@@ -884,7 +919,7 @@ func specC11(c *Case, ps []*Probe) []string {
 	return specFromProbes("")(c, ps)
 }
 
-var dfNames = []string{"df", "d f", "x'y", "dflt_1", "Ünï", " df", "df ", "\tdf\n", " ", "\t"}
+var dfNames = []string{"df", "d f", "x'y", "dflt_1", "Ünï", " df", "df ", "\tdf\n", " ", "\t", "\"my col\"", "\"a\"", "'q'", "\"", "\"\""}
 
 var embedContexts = []string{"f:(%s)", "f:>(%s)", "f:<=(%s)", "f=(%s)", "f:[(%s) TO 5]", "f:[1 TO (%s)]", "(%s):x", "(%s):x*", "f:((%s):c*)", "f:((%s):(c OR d))",
 	"f:((%s):[1 TO 5])", "NOT (%s)", "x AND f:(%s)", "f:(%s)^2", "f:(%s)~", "+(%s)", "f:(x:y AND %s)", "f:(a:[(%s) TO d])", "g:(f:(%s))"}
@@ -1052,6 +1087,7 @@ func init() {
 	}})
 	add(&Property{ID: "C03", Fields: fields("P", "PG"), Spec: specC03, Generate: func(cfg RunConfig, emit func(Case)) {
 		rng := gen.NewRng(cfg.Seed, 3)
+		emit(Case{Gen: "isolation", Kind: "isolation", S: "a:b"})
 		genFilters(rng, "sem", tiered(cfg, 120000, 2000000), emit)
 	}})
 	add(&Property{ID: "C04", Fields: fields("P", "PG", "PP"), Spec: specC04, Generate: func(cfg RunConfig, emit func(Case)) {
